@@ -148,6 +148,8 @@ def gen_find_extrema_kwargs(rng, fs, f_lo, allow_nseconds=True, allow_none=True)
         kw['filter_kwargs'] = {'n_seconds': float(rng.choice([2, 3, 4])) / f_lo}
     if rng.random() < 0.6:
         kw['boundary'] = int(rng.choice([0, 1, 5, 7, int(fs / f_lo)]))
+        if rng.random() < 0.2:
+            kw['boundary'] = float(kw['boundary'])          # a whole number of samples that happens to be float-typed (np.ceil(...), 2e2)
     if rng.random() < 0.3:
         kw['pad'] = bool(rng.random() < 0.5)
     return kw
@@ -168,6 +170,26 @@ def boundary_on_extremum(rng, sig, fs, f_range, filter_kwargs=None, pad=True):
     if not cands:
         return None
     return int(cands[int(rng.integers(0, len(cands)))])
+
+
+def boundary_leaving_rows(sig, fs, f_range, filter_kwargs, pad, rows, per):
+    """A boundary after which the peak-first reference table has exactly ``rows`` rows (None if none is found)."""
+    from . import monitors
+    n = len(sig)
+    b = n // 2
+    for _ in range(24):
+        b = int(b - max(1, per / 4))
+        if b <= 0:
+            return None
+        try:
+            p, t, info = monitors.documented_extrema(sig, fs, f_range, b, 'peak', filter_kwargs, 'bandpass', pad)
+        except Exception:
+            return None
+        if p is not None and len(p) == len(t) and len(t) - 1 == rows:
+            return b
+        if p is not None and len(t) - 1 > rows:
+            return None
+    return None
 
 
 def gen_thresholds_cycles(rng, full=True):
@@ -192,8 +214,12 @@ def gen_amp_options(rng, f_lo):
     route = int(rng.integers(0, 4))
     if route in (1, 3):
         thr['min_n_cycles'] = int(rng.choice([1, 2, 3, 5]))
+        if rng.random() < 0.15:
+            thr['min_n_cycles'] = float(rng.choice([2.4, 2.5, 3.5]))          # any value >= 0 is legal, also a fractional one
     if route in (2, 3):
         bk['min_n_cycles'] = int(rng.choice([1, 2, 4]))
+        if rng.random() < 0.15:
+            bk['min_n_cycles'] = float(rng.choice([1.5, 2.4, 2.5]))
     if rng.random() < 0.5:
         bk['amp_threshes'] = (float(rng.choice([.5, 1])), float(rng.choice([1.5, 2, 3])))
     if rng.random() < 0.15:
@@ -219,6 +245,17 @@ def gen_pipeline_case(rng, families=None, methods=('cycles', 'amp'), nsec=(1.0, 
         if b is not None:
             fek['boundary'] = b
             kind = kind + '+b'
+    if rng.random() < 0.06:
+        # a large (legal) boundary that leaves only one to three complete cycles in the middle of the recording
+        per = fs / (0.5 * (lo + hi))
+        fek = dict(fek or {}, boundary=max(0, int(len(sig) / 2 - float(rng.choice([0.8, 1.3, 2.2, 3.1])) * per)))
+        kind = kind + '+few_cycles_left'
+        want = int(rng.choice([1, 1, 2]))
+        b = boundary_leaving_rows(sig if center == 'peak' else -np.asarray(sig, dtype=float), fs, (lo, hi), fek.get('filter_kwargs'),
+                                  fek.get('pad', True), want, per)
+        if b is not None:
+            fek['boundary'] = b
+            kind = kind + '+exactly_%d' % want
     route = None
     if method == 'cycles':
         thr = gen_thresholds_cycles(rng, full=rng.random() < 0.7)
